@@ -1,0 +1,40 @@
+//go:build verif
+
+package corazawaf
+
+// Verification hooks of property C06, part 2 (add-only; compiled with -tags verif only): the
+// per-transaction settings a ctl action may overwrite.
+
+// VerifC06Settings returns the per-transaction copies of WAF-wide settings "that may be overwritten
+// by the ctl action", as numbers, in a fixed order (see harness/c06/c06lib: SettingNames).
+func (tx *Transaction) VerifC06Settings() []int {
+	b := func(x bool) int {
+		if x {
+			return 1
+		}
+		return 0
+	}
+	return []int{
+		int(tx.RequestBodyLimit), int(tx.ResponseBodyLimit), int(tx.RuleEngine),
+		b(tx.RequestBodyAccess), b(tx.ResponseBodyAccess),
+		b(tx.ForceRequestBodyVariable), b(tx.ForceResponseBodyVariable),
+		int(tx.AuditEngine), len(tx.AuditLogParts),
+		len(tx.ruleRemoveByID), len(tx.ruleRemoveByIDRanges), len(tx.ruleRemoveTargetByID),
+		tx.Skip, int(tx.AllowType), b(tx.HashEngine), b(tx.HashEnforcement), len(tx.SkipAfter),
+	}
+}
+
+// VerifC06Settings of the WAF: what a transaction run alone starts from.
+func (w *WAF) VerifC06Settings() []int {
+	b := func(x bool) int {
+		if x {
+			return 1
+		}
+		return 0
+	}
+	return []int{
+		int(w.RequestBodyLimit), int(w.ResponseBodyLimit), int(w.RuleEngine),
+		b(w.RequestBodyAccess), b(w.ResponseBodyAccess), 0, 0,
+		int(w.AuditEngine), len(w.AuditLogParts), 0, 0, 0, 0, 0, 0, 0, 0,
+	}
+}
